@@ -70,7 +70,34 @@ fn run_path(spec: &Spec, script: Vec<bool>) -> Path {
     }
 }
 
+/// Seeded random sampling of control-flow paths (for cases whose decision tree is too large to
+/// enumerate): every sample answers each fork from a pseudo-random bit string.
+fn sample_paths(spec: &Spec, n: usize, seed: u64) -> (Vec<Path>, bool) {
+    let mut paths: Vec<Path> = vec![];
+    for i in 0..n {
+        let mut script = Vec::with_capacity(64);
+        let mut h = hash64(&spec.kind, seed.wrapping_mul(1000003).wrapping_add(i as u64));
+        for k in 0..64 {
+            if k % 60 == 59 {
+                h = hash64("more", h);
+            }
+            script.push((h >> (k % 60)) & 1 == 1);
+        }
+        let p = run_path(spec, script);
+        if !paths.iter().any(|q| q.decisions == p.decisions) {
+            paths.push(p);
+        }
+    }
+    (paths, true)
+}
+
 fn enumerate(spec: &Spec, max_paths: usize) -> (Vec<Path>, bool) {
+    if let Ok(n) = std::env::var("SYMTRACE_RANDOM_PATHS") {
+        if let Ok(n) = n.parse::<usize>() {
+            let seed: u64 = std::env::var("VERIF_SEED").ok().and_then(|s| s.parse().ok()).unwrap_or(0);
+            return sample_paths(spec, n, seed);
+        }
+    }
     let mut stack: Vec<Vec<bool>> = vec![vec![]];
     let mut paths = vec![];
     let mut truncated = false;
